@@ -425,11 +425,14 @@ func NewAuthenticator(config *SecurityConfig, s *stream.Stream) *Authenticator {
 		}
 	}
 
-	// Store the base64-encoded raw public key in config (HTCondor raw format)
-	config.ECDHPublicKey = base64.StdEncoding.EncodeToString(pubKeyBytes)
+	// Store the base64-encoded raw public key (HTCondor raw format) in a private
+	// shallow copy of the config: the caller's config may be shared by concurrent
+	// handshakes, each of which needs its own ephemeral key.
+	connConfig := *config
+	connConfig.ECDHPublicKey = base64.StdEncoding.EncodeToString(pubKeyBytes)
 
 	return &Authenticator{
-		config:      config,
+		config:      &connConfig,
 		stream:      s,
 		ecdhPrivKey: ecdhPrivKey,
 	}
